@@ -71,6 +71,18 @@ impl AsyncOverlayFS {
             .join(format!(".whiteout/{}_wo", &path[1..]))
     }
 
+    async fn clear_whiteout(&self, path: &str) -> VfsResult<()> {
+        let whiteout_path = self.whiteout_path(path)?;
+        if whiteout_path.exists().await? {
+            match whiteout_path.remove_file().await {
+                // cleared by a concurrent caller in the meantime
+                Err(err) if matches!(err.kind(), VfsErrorKind::FileNotFound) => {}
+                other => other?,
+            }
+        }
+        Ok(())
+    }
+
     async fn ensure_has_parent(&self, path: &str) -> VfsResult<()> {
         let separator = path.rfind('/');
         if let Some(index) = separator {
@@ -138,12 +150,15 @@ impl AsyncFileSystem for AsyncOverlayFS {
                 VfsFileType::Directory => Err(VfsErrorKind::DirectoryExists.into()),
             };
         }
-        self.write_path(path)?.create_dir().await?;
-        let whiteout_path = self.whiteout_path(path)?;
-        if whiteout_path.exists().await? {
-            whiteout_path.remove_file().await?;
+        if let Err(err) = self.write_path(path)?.create_dir().await {
+            if let VfsErrorKind::DirectoryExists = err.kind() {
+                // a concurrent create_dir won the race for the write layer but may not have cleared
+                // the whiteout yet: clear it here too, so that the directory is visible on return
+                self.clear_whiteout(path).await?;
+            }
+            return Err(err);
         }
-        Ok(())
+        self.clear_whiteout(path).await
     }
 
     async fn open_file(&self, path: &str) -> VfsResult<Box<dyn SeekAndRead + Send + Unpin>> {
